@@ -412,6 +412,205 @@ theorem packRun_valid (sizes : List Rat) (cap : Rat) (useBest dec : Bool) (hcap 
     | nil => exact absurd h this
     | cons _ _ => simp
 
+/-- first-fit: the chosen bin fits and no earlier bin does; `none` means no bin fits -/
+theorem firstFit_spec (size : Rat) : ∀ (bins : List Rat) (b0 : Nat),
+    match firstFit ratOps size bins b0 with
+    | some b => b0 ≤ b ∧ b - b0 < bins.length ∧ size ≤ bins.getD (b - b0) 0 ∧
+        ∀ j, j < b - b0 → ¬ size ≤ bins.getD j 0
+    | none => ∀ j, j < bins.length → ¬ size ≤ bins.getD j 0 := by
+  intro bins
+  induction bins with
+  | nil => intro b0; simp [firstFit]
+  | cons r rs ih =>
+    intro b0
+    simp only [firstFit]
+    by_cases hle : size ≤ r
+    · have : ratOps.le size r = true := decide_eq_true hle
+      simp only [this, if_true]
+      refine ⟨Nat.le_refl _, by simp, by simpa [List.getD_cons_zero] using hle, fun j hj => by omega⟩
+    · have : ratOps.le size r = false := decide_eq_false hle
+      simp only [this, Bool.false_eq_true, if_false]
+      have := ih (b0 + 1)
+      split
+      · rename_i b hb
+        rw [hb] at this
+        obtain ⟨h1, h2, h3, h4⟩ := this
+        have e : b - b0 = (b - (b0 + 1)) + 1 := by omega
+        refine ⟨by omega, by simp; omega, by rw [e, List.getD_cons_succ]; exact h3, fun j hj => ?_⟩
+        cases j with
+        | zero => simpa [List.getD_cons_zero] using hle
+        | succ j => rw [List.getD_cons_succ]; exact h4 j (by omega)
+      · rename_i hb
+        rw [hb] at this
+        intro j hj
+        cases j with
+        | zero => simpa [List.getD_cons_zero] using hle
+        | succ j => rw [List.getD_cons_succ]; exact this j (by simpa using hj)
+
+
+/-- best-fit: the result is at least as tight as every bin that fits (and as the incoming best) -/
+theorem bestFit_min (size : Rat) : ∀ (bins : List Rat) (b0 : Nat) (best : Option (Nat × Rat)),
+    (∀ j, j < bins.length → size ≤ bins.getD j 0 →
+      ∃ b r, bestFit ratOps size bins b0 best = some (b, r) ∧ r ≤ bins.getD j 0) ∧
+    (∀ bb br, best = some (bb, br) → ∃ b r, bestFit ratOps size bins b0 best = some (b, r) ∧ r ≤ br) := by
+  intro bins
+  induction bins with
+  | nil => intro b0 best; exact ⟨fun j hj => by simp at hj, fun bb br h => ⟨bb, br, by simp [bestFit, h], Rat.le_refl⟩⟩
+  | cons x xs ih =>
+    intro b0 best
+    simp only [bestFit]
+    constructor
+    · intro j hj hfit
+      cases j with
+      | zero =>
+        rw [List.getD_cons_zero] at hfit ⊢
+        have hle : ratOps.le size x = true := decide_eq_true hfit
+        cases best with
+        | none =>
+          simp only [hle, Bool.and_self, if_true]
+          exact (ih (b0 + 1) (some (b0, x))).2 b0 x rfl
+        | some p =>
+          obtain ⟨bb, br⟩ := p
+          simp only [hle, Bool.true_and]
+          by_cases hlt : x < br
+          · have : ratOps.lt x br = true := decide_eq_true hlt
+            simp only [this, if_true]
+            exact (ih (b0 + 1) (some (b0, x))).2 b0 x rfl
+          · have : ratOps.lt x br = false := decide_eq_false hlt
+            simp only [this, Bool.false_eq_true, if_false]
+            obtain ⟨b, r, h1, h2⟩ := (ih (b0 + 1) (some (bb, br))).2 bb br rfl
+            exact ⟨b, r, h1, by grind⟩
+      | succ j =>
+        rw [List.getD_cons_succ] at hfit ⊢
+        exact (ih (b0 + 1) _).1 j (by simpa using hj) hfit
+    · intro bb br hb
+      subst hb
+      simp only
+      split
+      · rename_i hbetter
+        simp only [Bool.and_eq_true] at hbetter
+        have hlt : x < br := by simpa [ratOps] using hbetter.2
+        obtain ⟨b, r, h1, h2⟩ := (ih (b0 + 1) (some (b0, x))).2 b0 x rfl
+        exact ⟨b, r, h1, by grind⟩
+      · exact (ih (b0 + 1) (some (bb, br))).2 bb br rfl
+
+theorem bestFit_none {size : Rat} {bins : List Rat} (h : bestFit ratOps size bins 0 none = none) :
+    ∀ j, j < bins.length → ¬ size ≤ bins.getD j 0 := by
+  intro j hj hfit
+  obtain ⟨b, r, h1, _⟩ := (bestFit_min size bins 0 none).1 j hj hfit
+  rw [h] at h1; cases h1
+
+theorem firstFit_none {size : Rat} {bins : List Rat} (h : firstFit ratOps size bins 0 = none) :
+    ∀ j, j < bins.length → ¬ size ≤ bins.getD j 0 := by
+  have := firstFit_spec size bins 0
+  rw [h] at this
+  exact this
+
+/-- any two open bins together hold more than one bin's capacity -/
+def PairInv (cap : Rat) (st : PState Rat) : Prop :=
+  ∀ b b', b < b' → b' < st.bins.length → st.bins.getD b 0 + st.bins.getD b' 0 < cap
+
+theorem place_pair (sizes : List Rat) (cap : Rat) (useBest : Bool) (st : PState Rat) (j : Nat)
+    (hs0 : 0 ≤ sizes.getD j 0) (inv : PairInv cap st) : PairInv cap (place ratOps cap useBest sizes st j) := by
+  unfold place
+  by_cases hz : sizes.getD j 0 = 0
+  · have hz' : ratOps.isZero (sizes.getD j ratOps.zero) = true := decide_eq_true hz
+    simp only [hz', if_true]
+    by_cases he : st.bins = []
+    · simp only [he, List.isEmpty_nil, if_true]
+      intro b b' h1 h2
+      simp at h2; omega
+    · have hne' : st.bins.isEmpty = false := by cases h : st.bins <;> simp_all
+      simp only [hne', Bool.false_eq_true, if_false]
+      exact inv
+  · have hz' : ratOps.isZero (sizes.getD j ratOps.zero) = false := decide_eq_false hz
+    simp only [hz', Bool.false_eq_true, if_false]
+    split
+    · rename_i b0 hb0
+      intro b b' h1 h2
+      simp only [List.length_set] at h2
+      have := inv b b' h1 h2
+      rw [getD_set_list, getD_set_list]
+      have e : ratOps.sub (st.bins.getD b0 ratOps.zero) (sizes.getD j ratOps.zero) = st.bins.getD b0 0 - sizes.getD j 0 := rfl
+      rw [e]
+      split <;> split <;> grind
+    · rename_i hnone
+      have hno : ∀ i, i < st.bins.length → ¬ sizes.getD j 0 ≤ st.bins.getD i 0 := by
+        cases useBest with
+        | true =>
+          simp only [if_true, Option.map_eq_none_iff] at hnone
+          exact bestFit_none hnone
+        | false =>
+          simp only [Bool.false_eq_true, if_false] at hnone
+          exact firstFit_none hnone
+      intro b b' h1 h2
+      simp only [List.length_append, List.length_singleton] at h2
+      by_cases hb' : b' = st.bins.length
+      · subst hb'
+        rw [getD_append_lt _ _ _ h1, getD_append_len]
+        have := hno b h1
+        show st.bins.getD b 0 + (cap - sizes.getD j 0) < cap
+        grind
+      · rw [getD_append_lt _ _ _ (by omega), getD_append_lt _ _ _ (by omega)]
+        exact inv b b' h1 (by omega)
+
+theorem foldl_place_pair (sizes : List Rat) (cap : Rat) (useBest : Bool)
+    (hs : ∀ i, 0 ≤ sizes.getD i 0) :
+    ∀ (todo : List Nat) (st : PState Rat), PairInv cap st → PairInv cap (todo.foldl (place ratOps cap useBest sizes) st) := by
+  intro todo
+  induction todo with
+  | nil => intro st inv; exact inv
+  | cons j rest ih => intro st inv; exact ih _ (place_pair sizes cap useBest st j (hs j) inv)
+
+theorem pair_sum (cap : Rat) (L : Nat → Rat) : ∀ k, (∀ b, b < k → 0 ≤ L b) → (∀ b, b + 1 < k → cap < L b + L (b + 1)) →
+    ((k / 2 : Nat) : Rat) * cap ≤ ((List.range k).map L).sum ∧
+    (2 ≤ k → ((k / 2 : Nat) : Rat) * cap < ((List.range k).map L).sum) := by
+  intro k
+  induction k using Nat.strongRecOn with
+  | _ k ih =>
+    intro h0 hp
+    match k with
+    | 0 => simp
+    | 1 =>
+      have := h0 0 (by omega)
+      simp [List.range_succ]; grind
+    | k + 2 =>
+      obtain ⟨i1, _⟩ := ih k (by omega) (fun b hb => h0 b (by omega)) (fun b hb => hp b (by omega))
+      have hk := hp k (by omega)
+      have e : (k + 2) / 2 = k / 2 + 1 := by omega
+      rw [List.range_succ, List.range_succ, List.map_append, List.map_append, sum_append_rat, sum_append_rat, e,
+        Rat.natCast_add]
+      simp only [List.map_cons, List.map_nil, List.sum_cons, List.sum_nil]
+      have : (((k / 2 : Nat) : Rat) + ((1 : Nat) : Rat)) * cap = ((k / 2 : Nat) : Rat) * cap + cap := by
+        simp; grind
+      rw [this]
+      exact ⟨by grind, fun _ => by grind⟩
+
+
+theorem packRun_inv (sizes : List Rat) (cap : Rat) (useBest dec : Bool) (hcap : 0 < cap)
+    (hs : ∀ s ∈ sizes, 0 ≤ s ∧ s ≤ cap) :
+    PInv sizes cap (packOrder ratOps sizes dec) (packRun ratOps sizes cap useBest dec) := by
+  have hperm := packOrder_perm sizes dec
+  have hs' : ∀ i, i < sizes.length → 0 ≤ sizes.getD i 0 ∧ sizes.getD i 0 ≤ cap := by
+    intro i hi
+    have : sizes.getD i 0 = sizes[i] := by simp [List.getD_eq_getElem?_getD, hi]
+    rw [this]; exact hs _ (List.getElem_mem hi)
+  have inv0 : PInv sizes cap [] ⟨[], List.replicate sizes.length 0⟩ :=
+    ⟨by simp, by simp, by simp, by simp, by simp, by simp⟩
+  have inv := foldl_place_inv sizes cap useBest (by grind) hs' (packOrder ratOps sizes dec) [] _ inv0
+    (by simpa using hperm.nodup_iff.2 List.nodup_range)
+    (fun j hj => List.mem_range.1 (hperm.mem_iff.1 hj))
+  simp only [List.nil_append] at inv
+  exact inv
+
+theorem sum_map_nonneg (l : List Nat) (f : Nat → Rat) (h : ∀ i ∈ l, 0 ≤ f i) : 0 ≤ (l.map f).sum := by
+  induction l with
+  | nil => simp
+  | cons a t ih =>
+    have := h a List.mem_cons_self
+    have := ih (fun i hi => h i (List.mem_cons_of_mem _ hi))
+    simp only [List.map_cons, List.sum_cons]; grind
+
 theorem ceil_le_of_le_mul {s cap : Rat} {k : Nat} (hcap : 0 < cap) (h : s ≤ k * cap) :
     (s / cap).ceil ≤ (k : Int) := by
   rw [Rat.ceil_le_iff]
